@@ -22,6 +22,17 @@ PROPS = {
                 "runs of entries equidistant from the query",
         "assumptions": ["slices.SortFunc yields some permutation sorted by the comparator (ties in any order)"],
     },
+    "C20": {
+        "streams": [{"name": "dht", "quick": 4000, "thorough": 150000, "thorough_seeds": 3}],
+        "oracles": ["dht"],
+        "rule": "one case = one iterative operation (findnode/join/get/put) against a simulated network of 1-40 nodes with honest, "
+                "failing and adversarial tables (cycles, self references, the zero id, fabricated ids, 60-entry lists, ids sharing "
+                "long prefixes with the key), 0-7 initial peers with duplicates; non-trivial = more than one node contacted; "
+                "compared: the exact sequence of RPCs and the whole result struct",
+        "assumptions": ["keys used in the correspondence are at least 32 bytes so that distinct ids are never equidistant (the unstable "
+                        "sort's tie order is then unobservable); theorems do not need this",
+                        "the responder in the correspondence is a static table; theorems quantify over stateful responders"],
+    },
     "C15": {
         "streams": [{"name": "mux", "quick": 6000, "thorough": 300000, "thorough_seeds": 3}],
         "oracles": ["mux"],
